@@ -12,9 +12,9 @@
  * Output per module:
  *   file <path>
  *   loadfail <rc>                                  (then endcase)
- *   mod <marker> <rst> <spd> <bpm> <maxframes>     \
+ *   mod <marker> <rst> <spd> <bpm> <maxframes> <speedonly>   \   (speedonly = QUIRK_NOBPM || p->flags & XMP_FLAGS_VBLANK)
  *   xxo <o0> <o1> …                                 | model input (driver reads these)
- *   pat <i> <rows> <row>:<s|t|d|r|j|x>:<param> …    |   (r = IT row delay SEx)
+ *   pat <i> <rows> <row>:<s|t|f|d|r|j|x>:<param> …  |   (r = IT row delay SEx; f = FX_SPEED raw: speed or tempo, decided by <speedonly>)
  *   end                                            /
  *   aux chn <n> nobpm <0|1> cmpvbl <m->compare_vblank> tf <time_factor> rrate <rrate> vocab <ok|bad>
  *   scan ok nseq <n>
@@ -26,6 +26,11 @@
  *   rowhash <fnv of all (pos,row,speed,bpm,nframes,regular)>
  *   tour <visits> ok <n>                           (reposition tour, multi-sequence modules only)
  *   restarts <visits> ok <n>                       (xmp_end_player + xmp_start_player, xmp_restart_module)
+ *   vscan nseq <n> / vseq <k> ep <ep> dur <ms> end <ord> <row> <num>
+ *                                                  (the rescan after xmp_set_player(XMP_PLAYER_CFLAGS, … | XMP_FLAGS_VBLANK);
+ *                                                   the driver computes the same with the VBlank flag set)
+ *   cfg <tag> seqs <n> ok <m>                      (oracle under a configuration change that triggers a rescan, or a
+ *                                                   small voice count; failures: oracle_fail … cfg <tag>)
  *   oracle_fail <kind> …
  *   endcase
  *
@@ -74,11 +79,10 @@ static char classify(struct module_data *m, int fxt, int fxp, int *param)
 	case 0:
 		return 0;
 	case FX_SPEED:
-		if (fxp == 0)
-			return 'x';
-		if ((m->quirk & QUIRK_NOBPM) || fxp < 0x20)
-			return 's';
-		return 't';
+		/* speed or tempo: both scan.c and effects.c decide by QUIRK_NOBPM || p->flags & XMP_FLAGS_VBLANK || fxp < 0x20;
+		 * dumped raw, the model decodes it with the flag of the configuration */
+		(void)m;
+		return fxp ? 'f' : 'x';
 	case FX_S3M_SPEED:
 		return fxp ? 's' : 'x';
 	case FX_S3M_BPM:
@@ -119,7 +123,8 @@ static int dump_module(struct context_data *ctx, int maxframes)
 	struct xmp_module *mod = &m->mod;
 	int i, r, c, bad = 0;
 
-	printf("mod %d %d %d %d %d\n", (m->quirk & QUIRK_MARKER) ? 1 : 0, mod->rst, mod->spd, mod->bpm, maxframes);
+	printf("mod %d %d %d %d %d %d\n", (m->quirk & QUIRK_MARKER) ? 1 : 0, mod->rst, mod->spd, mod->bpm, maxframes,
+	       ((m->quirk & QUIRK_NOBPM) || (ctx->p.flags & XMP_FLAGS_VBLANK)) ? 1 : 0);
 	printf("xxo");
 	for (i = 0; i < mod->len; i++)
 		printf(" %d", mod->xxo[i]);
@@ -179,6 +184,9 @@ static long us(double ms)
 	return (long)floor(ms * 1000.0 + 0.5);
 }
 
+/* where play_sequence writes (stdout, or a memory stream when only the oracle lines are wanted) */
+static FILE *OUT;
+
 static void play_sequence(xmp_context opaque, int k, int rate, int maxframes)
 {
 	struct context_data *ctx = (struct context_data *)opaque;
@@ -202,14 +210,14 @@ static void play_sequence(xmp_context opaque, int k, int rate, int maxframes)
 	memset(entered, 0, sizeof(entered));
 
 	if (xmp_start_player(opaque, rate, XMP_FORMAT_MONO | XMP_FORMAT_8BIT) != 0) {
-		printf("oracle_fail start_player seq %d\n", k);
+		fprintf(OUT, "oracle_fail start_player seq %d\n", k);
 		return;
 	}
 	rc = xmp_set_position(opaque, ep);
 	if (rc != ep) {
 		/* documented: returns the new position; for entry points that are skip markers the
 		 * library moves forward, anything else is unexpected */
-		printf("note set_position %d -> %d\n", ep, rc);
+		fprintf(OUT, "note set_position %d -> %d\n", ep, rc);
 	}
 
 	while (frames < maxframes) {
@@ -217,12 +225,12 @@ static void play_sequence(xmp_context opaque, int k, int rate, int maxframes)
 		int expect_size;
 		rc = xmp_play_frame(opaque);
 		if (rc != 0) {
-			printf("oracle_fail play_frame seq %d frame %d rc %d\n", k, frames, rc);
+			fprintf(OUT, "oracle_fail play_frame seq %d frame %d rc %d\n", k, frames, rc);
 			break;
 		}
 		xmp_get_frame_info(opaque, &fi);
 		if (fi.sequence != k) {
-			printf("oracle_fail sequence seq %d frame %d reports %d\n", k, frames, fi.sequence);
+			fprintf(OUT, "oracle_fail sequence seq %d frame %d reports %d\n", k, frames, fi.sequence);
 			break;
 		}
 		if (fi.loop_count > 0) {
@@ -235,11 +243,11 @@ static void play_sequence(xmp_context opaque, int k, int rate, int maxframes)
 				pat < 256 && fi.row < 256 && rowfx_kind[pat][fi.row] == 'r' && repeats < rowfx_param[pat][fi.row];
 			loopinc = 1;
 			if (!late && legit) {
-				printf("oracle_fail loop_early seq %d frame %d pos %d row %d: loop counter incremented inside a row delay\n",
+				fprintf(OUT, "oracle_fail loop_early seq %d frame %d pos %d row %d: loop counter incremented inside a row delay\n",
 				       k, frames, fi.pos, fi.row);
 			} else
 			if (!late && (fi.frame != 0 || !(played[fi.pos][fi.row & 255] || foreign))) {
-				printf("oracle_fail loop_early seq %d frame %d pos %d row %d fr %d: loop counter incremented on a row not played before\n",
+				fprintf(OUT, "oracle_fail loop_early seq %d frame %d pos %d row %d fr %d: loop counter incremented on a row not played before\n",
 				       k, frames, fi.pos, fi.row, fi.frame);
 			}
 			break;
@@ -257,7 +265,7 @@ static void play_sequence(xmp_context opaque, int k, int rate, int maxframes)
 			if ((played[fi.pos][fi.row & 255] || foreign) && !late && !legit) {
 				/* reported once; rendering goes on so that the trace can still be compared with the model */
 				late = 1;
-				printf("oracle_fail loop_late seq %d frame %d pos %d row %d: row %s re-entered without loop counter increment\n",
+				fprintf(OUT, "oracle_fail loop_late seq %d frame %d pos %d row %d: row %s re-entered without loop counter increment\n",
 				       k, frames, fi.pos, fi.row, foreign ? "of another sequence" : "already played");
 			}
 			played[fi.pos][fi.row & 255] = 1;
@@ -266,12 +274,12 @@ static void play_sequence(xmp_context opaque, int k, int rate, int maxframes)
 				double rec = m->xxo_info[fi.pos].time;
 				entered[fi.pos] = 1;
 				if (fabs(rec - total) >= ft) {
-					printf("oracle_fail order_time seq %d pos %d recorded %d ms rendered %.3f ms tick %.3f\n",
+					fprintf(OUT, "oracle_fail order_time seq %d pos %d recorded %d ms rendered %.3f ms tick %.3f\n",
 					       k, fi.pos, m->xxo_info[fi.pos].time, total, ft);
 				}
 				/* the public view: frame_info.time after the first frame of the order */
 				if (fabs((double)fi.time - (total + ft)) >= ft + 1.0) {
-					printf("oracle_fail order_time_public seq %d pos %d fi.time %d rendered %.3f ms\n",
+					fprintf(OUT, "oracle_fail order_time_public seq %d pos %d fi.time %d rendered %.3f ms\n",
 					       k, fi.pos, fi.time, total + ft);
 				}
 			}
@@ -296,12 +304,12 @@ static void play_sequence(xmp_context opaque, int k, int rate, int maxframes)
 		/* the tick the mixer rendered has the length the reported tempo implies */
 		expect_size = (int)(rate * 10.0 * 250.0 / fi.bpm / 1000);
 		if (fi.buffer_size != expect_size) {
-			printf("oracle_fail buffer_size seq %d frame %d bpm %d size %d expected %d\n", k, frames, fi.bpm,
+			fprintf(OUT, "oracle_fail buffer_size seq %d frame %d bpm %d size %d expected %d\n", k, frames, fi.bpm,
 			       fi.buffer_size, expect_size);
 			break;
 		}
 		if (fabs(ft - 2500.0 / fi.bpm) > 1e-9 || labs((long)fi.frame_time - (long)(ft * 1000)) > 1) {
-			printf("oracle_fail frame_time seq %d frame %d bpm %d frame_time %.6f fi %d\n", k, frames, fi.bpm, ft, fi.frame_time);
+			fprintf(OUT, "oracle_fail frame_time seq %d frame %d bpm %d frame_time %.6f fi %d\n", k, frames, fi.bpm, ft, fi.frame_time);
 			break;
 		}
 		total += ft;
@@ -312,7 +320,7 @@ static void play_sequence(xmp_context opaque, int k, int rate, int maxframes)
 	xmp_end_player(opaque);
 
 	if (frames >= maxframes) {
-		printf("cap seq %d\n", k);
+		fprintf(OUT, "cap seq %d\n", k);
 		return;
 	}
 	if (!loopinc)
@@ -322,20 +330,20 @@ static void play_sequence(xmp_context opaque, int k, int rate, int maxframes)
 	if (min_tick > 1e8)
 		min_tick = 0.0;
 	if (!late && fabs((double)duration - total) >= min_tick) {
-		printf("oracle_fail duration seq %d reported %d ms rendered %.3f ms (one tick = %.3f ms)\n", k, duration, total, min_tick);
+		fprintf(OUT, "oracle_fail duration seq %d reported %d ms rendered %.3f ms (one tick = %.3f ms)\n", k, duration, total, min_tick);
 	}
 	/* independent sums: the public integer frame_time (us, truncated per frame) and the sample count */
 	if (!late && fabs(total_fi_us / 1000.0 - duration) >= min_tick + frames / 1000.0) {
-		printf("oracle_fail duration_public seq %d reported %d ms sum fi.frame_time %.3f ms\n", k, duration, total_fi_us / 1000.0);
+		fprintf(OUT, "oracle_fail duration_public seq %d reported %d ms sum fi.frame_time %.3f ms\n", k, duration, total_fi_us / 1000.0);
 	}
 	if (!late && fabs(total_samples * 1000.0 / rate - duration) >= min_tick + frames * 1000.0 / rate) {
-		printf("oracle_fail duration_samples seq %d reported %d ms rendered samples %.3f ms\n", k, duration, total_samples * 1000.0 / rate);
+		fprintf(OUT, "oracle_fail duration_samples seq %d reported %d ms rendered samples %.3f ms\n", k, duration, total_samples * 1000.0 / rate);
 	}
 	if (fi.total_time != duration) {
-		printf("oracle_fail total_time seq %d frame_info.total_time %d duration %d\n", k, fi.total_time, duration);
+		fprintf(OUT, "oracle_fail total_time seq %d frame_info.total_time %d duration %d\n", k, fi.total_time, duration);
 	}
 
-	printf("play %d frames %d rows %d total %ld loopinc %s\n", k, frames, nrows, us(total), loopinc ? "true" : "false");
+	fprintf(OUT, "play %d frames %d rows %d total %ld loopinc %s\n", k, frames, nrows, us(total), loopinc ? "true" : "false");
 	for (i = 0; i < nrows; i++) {
 		struct rowg *g = &rows[i];
 		int v[6], j;
@@ -344,10 +352,10 @@ static void play_sequence(xmp_context opaque, int k, int rate, int maxframes)
 			h = (h ^ (uint64_t)v[j]) * 0x100000001b3ULL;
 		}
 		if (i < 40 || i + 5 >= nrows || g->row == 0)
-			printf("r %d %d %d %d %d %d %d %ld %ld\n", i, g->pos, g->row, g->speed, g->bpm, g->n, g->regular,
+			fprintf(OUT, "r %d %d %d %d %d %d %d %ld %ld\n", i, g->pos, g->row, g->speed, g->bpm, g->n, g->regular,
 			       us(g->t_before), (long)g->fi_time * 1000L);
 	}
-	printf("rowhash %llu\n", (unsigned long long)h);
+	fprintf(OUT, "rowhash %llu\n", (unsigned long long)h);
 	if (!late) {
 		fresh_hash[k & 255] = h;
 		fresh_frames[k & 255] = frames;
@@ -537,6 +545,106 @@ out:
 	printf("restarts %d ok %d\n", rvisits, rok);
 }
 
+/* The duration / order time / loop counter oracle under a configuration: a fresh context, the module loaded,
+ * the configuration applied (a rescan happens inside the library where the configuration calls for one), then every
+ * sequence rendered from its entry point.  Only the oracle lines are kept, tagged with the configuration. */
+enum { CFG_CFLAGS_VBLANK, CFG_CFLAGS_OFF, CFG_FLAGS_LOAD, CFG_MODE, CFG_VOICES };
+
+static void run_cfg(const char *path, int kind, int arg, int rate, int maxframes)
+{
+	xmp_context opaque = xmp_create_context();
+	struct context_data *ctx = (struct context_data *)opaque;
+	struct module_data *m = &ctx->m;
+	struct player_data *p = &ctx->p;
+	char tag[64];
+	int k, nok = 0, flags, rc = 0;
+
+	if (xmp_load_module(opaque, path) != 0) {
+		xmp_free_context(opaque);
+		return;
+	}
+	switch (kind) {
+	case CFG_CFLAGS_VBLANK:
+	case CFG_CFLAGS_OFF:
+		snprintf(tag, sizeof(tag), kind == CFG_CFLAGS_VBLANK ? "vblank_cflags" : "vblank_cflags_off");
+		if (xmp_start_player(opaque, rate, XMP_FORMAT_MONO | XMP_FORMAT_8BIT) != 0)
+			goto out;
+		flags = xmp_get_player(opaque, XMP_PLAYER_CFLAGS);
+		rc = xmp_set_player(opaque, XMP_PLAYER_CFLAGS, flags | XMP_FLAGS_VBLANK);
+		if (rc == 0 && kind == CFG_CFLAGS_OFF)
+			rc = xmp_set_player(opaque, XMP_PLAYER_CFLAGS, flags & ~XMP_FLAGS_VBLANK);
+		xmp_end_player(opaque);
+		break;
+	case CFG_FLAGS_LOAD:
+		snprintf(tag, sizeof(tag), "vblank_flags_load");
+		if (xmp_start_player(opaque, rate, XMP_FORMAT_MONO | XMP_FORMAT_8BIT) != 0)
+			goto out;
+		flags = xmp_get_player(opaque, XMP_PLAYER_FLAGS);
+		rc = xmp_set_player(opaque, XMP_PLAYER_FLAGS, flags | XMP_FLAGS_VBLANK);
+		xmp_end_player(opaque);
+		xmp_release_module(opaque);
+		if (xmp_load_module(opaque, path) != 0) {
+			xmp_free_context(opaque);
+			return;
+		}
+		if (rc == 0 && !(p->flags & XMP_FLAGS_VBLANK))
+			printf("oracle_fail flags_not_applied: XMP_PLAYER_FLAGS VBLANK set before the load, module flags %d cfg %s\n", p->flags, tag);
+		break;
+	case CFG_MODE:
+		snprintf(tag, sizeof(tag), "mode%d", arg);
+		if (xmp_start_player(opaque, rate, XMP_FORMAT_MONO | XMP_FORMAT_8BIT) != 0)
+			goto out;
+		rc = xmp_set_player(opaque, XMP_PLAYER_MODE, arg);
+		xmp_end_player(opaque);
+		break;
+	default:
+		snprintf(tag, sizeof(tag), "voices%d", arg);
+		rc = xmp_set_player(opaque, XMP_PLAYER_VOICES, arg);
+		break;
+	}
+	if (rc != 0)
+		goto out;		/* the library refused the configuration: nothing changed */
+	if (kind == CFG_CFLAGS_VBLANK) {
+		/* the rescan itself, for the correspondence with the model (scan with the VBlank flag set) */
+		printf("vscan nseq %d\n", m->num_sequences);
+		for (k = 0; k < m->num_sequences; k++)
+			printf("vseq %d ep %d dur %d end %d %d %d\n", k, m->seq_data[k].entry_point, m->seq_data[k].duration,
+			       p->scan[k].ord, p->scan[k].row, p->scan[k].num);
+	}
+	for (k = 0; k < m->num_sequences && k < 255; k++) {
+		char *buf = NULL, *line, *save = NULL;
+		size_t len = 0;
+		int failed = 0;
+		struct xmp_module_info mi;
+		FILE *mem = open_memstream(&buf, &len);
+		if (mem == NULL)
+			break;
+		/* the public view of the (re)scan */
+		xmp_get_module_info(opaque, &mi);
+		if (mi.num_sequences != m->num_sequences || mi.seq_data[k].duration != m->seq_data[k].duration ||
+		    p->scan[k].time != m->seq_data[k].duration)
+			printf("oracle_fail module_info seq %d: %d sequences duration %d, scan %d sequences time %d cfg %s\n", k,
+			       mi.num_sequences, mi.seq_data[k].duration, m->num_sequences, p->scan[k].time, tag);
+		OUT = mem;
+		play_sequence(opaque, k, rate, maxframes);
+		OUT = stdout;
+		fclose(mem);
+		for (line = strtok_r(buf, "\n", &save); line; line = strtok_r(NULL, "\n", &save)) {
+			if (strncmp(line, "oracle_fail", 11) == 0) {
+				printf("%s cfg %s\n", line, tag);
+				failed = 1;
+			}
+		}
+		free(buf);
+		if (!failed)
+			nok++;
+	}
+	printf("cfg %s seqs %d ok %d\n", tag, m->num_sequences, nok);
+out:
+	xmp_release_module(opaque);
+	xmp_free_context(opaque);
+}
+
 int main(int argc, char **argv)
 {
 	int rate, maxframes, a;
@@ -547,6 +655,7 @@ int main(int argc, char **argv)
 	}
 	rate = atoi(argv[1]);
 	maxframes = atoi(argv[2]);
+	OUT = stdout;
 
 	for (a = 3; a < argc; a++) {
 		xmp_context opaque = xmp_create_context();
@@ -590,11 +699,30 @@ int main(int argc, char **argv)
 			for (q = q ? q + 1 : argv[a]; *q; q++)
 				sd = (sd ^ (uint64_t)(unsigned char)*q) * 0x100000001b3ULL;
 			tour(opaque, rate, maxframes, sd ^ (uint64_t)mod->len * 977u);
+			xmp_release_module(opaque);
+			xmp_free_context(opaque);
+			opaque = NULL;
+			/* configurations: the VBlank rescan always; one more VBlank route, one player mode and one small
+			 * voice count chosen by the file name (IT: one voice always) */
+			{
+				static const int voc[3] = { 1, 2, 4 };
+				size_t n = strlen(argv[a]);
+				int is_it = n > 3 && strcmp(argv[a] + n - 3, ".it") == 0;
+				run_cfg(argv[a], CFG_CFLAGS_VBLANK, 0, rate, maxframes);
+				run_cfg(argv[a], (sd >> 8) & 1 ? CFG_CFLAGS_OFF : CFG_FLAGS_LOAD, 0, rate, maxframes);
+				run_cfg(argv[a], CFG_MODE, getenv("C18_CFG_MODE") ? atoi(getenv("C18_CFG_MODE")) : 1 + (int)((sd >> 16) % 10),
+					rate, maxframes);	/* C18_CFG_MODE: replay of a recorded failure */
+				run_cfg(argv[a], CFG_VOICES, is_it ? 1 : voc[(sd >> 24) % 3], rate, maxframes);
+				if (is_it)
+					run_cfg(argv[a], CFG_VOICES, voc[1 + ((sd >> 24) & 1)], rate, maxframes);
+			}
 		}
 		printf("endcase\n");
 		fflush(stdout);
-		xmp_release_module(opaque);
-		xmp_free_context(opaque);
+		if (opaque != NULL) {
+			xmp_release_module(opaque);
+			xmp_free_context(opaque);
+		}
 	}
 	free(rows);
 	return 0;
